@@ -270,6 +270,12 @@ func c10(r *ev.Result, tier string) {
 	r.Set("zoned_client_address_cases", nz)
 	r.Set("handshake_burst_clients_checked", c10HandshakeBurst(r))
 	{
+		n := c10SingleFileName(r, base)
+		r.Add(n)
+		r.AddDistinct(n)
+		r.Set("single_file_with_percent_in_its_name_requests", n)
+	}
+	{
 		n := c10Concurrent(r, fdir)
 		r.Add(n)
 		r.AddDistinct(n)
@@ -708,4 +714,37 @@ func c10Concurrent(r *ev.Result, fdir string) int {
 			What: fmt.Sprintf("%d file requests from %d clients at the same time, each with a target of its own: %d of them do not have exactly one notice carrying their target (%s); notices carry targets nobody sent: %q", len(sent), clients, bad, example, strange)})
 	}
 	return len(sent)
+}
+
+// c10SingleFileName: -serve-files-from names a single file whose own name
+// contains percent signs: a configuration value is data too, wherever it is
+// shown, and the request's target still comes out character for character.
+func c10SingleFileName(r *ev.Result, base string) int {
+	n := 0
+	for _, name := range []string{"50%off.sh", "100%s.sh", "%d%v%!.sh"} {
+		f := filepath.Join(base, name)
+		if err := os.WriteFile(f, []byte("payload\n"), 0o644); nil != err {
+			ev.Broken("%s", err)
+		}
+		w, err := hworld.Start(hworld.Config{FDir: f})
+		if nil != err {
+			ev.Broken("%s", err)
+		}
+		for _, t := range []string{"/a%20b?x=%d&y=100%25", "/plain", "/%73%25s?%v", "/x?q=%!"} {
+			c, err := w.Dial("")
+			if nil != err {
+				ev.Broken("%s", err)
+			}
+			w.Drain()
+			_, derr := c.Do(hworld.Get(t, w.Addr))
+			c.Close()
+			if nil != derr {
+				continue
+			}
+			c10Judge(r, c10Case{Position: "single-file-named-" + name, Text: t}, w.Drain(), t, "File requested")
+			n++
+		}
+		w.Stop()
+	}
+	return n
 }
